@@ -151,9 +151,11 @@ def stress_case(g, rng):
 
 
 def reference_pairs(M, rec, rng, g, n_cases):
-    """Second, independent oracle: on non-negative inputs the initial clamps are the identity, so the
-    step with options must equal clamp_next(REFERENCE MODEL) — this sees a clamp that is applied
-    although its option is off (which a library-vs-library comparison cannot)."""
+    """Second, independent oracle: on non-negative inputs the initial clamps are the identity; wherever
+    the scalar reference says the un-clamped next value is clearly negative, the step must return a
+    negative value when the option naming that quantity is off and exactly zero when it is on — this
+    sees a clamp that is applied although its option is off (which a library-vs-library comparison
+    cannot), without depending on the dynamics being right."""
     from vf import oracle as OO, refmodel as R
 
     NE, CE = drive.engines(M)
@@ -171,9 +173,20 @@ def reference_pairs(M, rec, rng, g, n_cases):
                     rec.seen("negative_plain_quantities", name)
         built = D.build(M, desc, D.random_ops(desc, rng))
         kw = drive.step_pars(pars)
+        # where is the un-clamped value clearly negative?  (the reference is used for the SIGN only, so a
+        # fault of the dynamics themselves — property C01 — does not raise an alarm here)
+        neg = {}
+        for eid, d in plain.next.items():
+            for name, v in d.items():
+                vs = v if isinstance(v, list) else [v]
+                ms = plain.mag[eid][name]
+                ms = ms if isinstance(ms, list) else [ms]
+                for i, (x, m) in enumerate(zip(vs, ms)):
+                    if x < -1e-2 * (1.0 + m):
+                        neg[(eid, name, i)] = x
+        if not neg:
+            continue
         for opts in combos():
-            nxt_opts = {k: True for k in opts if "_next_" in k}
-            ref = R.ref_step(desc, vals, pars, nxt_opts)
             try:
                 built.net.step(init_conditions=drive.np_init(built, vals, "vec1"), engine=NE(), **opts, **kw)
                 got = drive.read_next(built)
@@ -182,30 +195,22 @@ def reference_pairs(M, rec, rng, g, n_cases):
                 break
             rec.count("pairs_reference")
             bad = None
-            for eid, d in ref.next.items():
-                for name, v in d.items():
-                    es = v if isinstance(v, list) else [v]
-                    gs = got[eid][name] if isinstance(got[eid][name], list) else [got[eid][name]]
-                    ms = ref.mag[eid][name]
-                    ms = ms if isinstance(ms, list) else [ms]
-                    for i, (x, y, m) in enumerate(zip(gs, es, ms)):
-                        rec.count("scalars_compared")
-                        alt = ref.vdrop_alt.get(eid) if (name == "v" and i == len(es) - 1) else None
-                        if not OO.close(x, y, m) and not (alt is not None and OO.close(x, alt, m)):
-                            bad = (eid, name, i, x, y)
-                            break
-                    if bad:
-                        break
+            for (eid, name, i), x in neg.items():
+                q_ = [k for k, v in QUANT.items() if v == name][0]
+                on = bool(opts.get(f"positive_next_{q_}"))
+                g_ = got[eid][name][i] if isinstance(got[eid][name], list) else got[eid][name]
+                rec.count("scalars_compared")
+                if on and g_ != 0.0:
+                    bad = (eid, name, i, g_, 0.0, f"{name}+ is not clamped at zero although positive_next_{q_} is on")
+                elif not on and not (g_ < 0.0):
+                    bad = (eid, name, i, g_, x, f"{name}+ is clamped at zero although its option is off")
                 if bad:
                     break
             if bad:
-                eid, name, i, x, y = bad
-                clamped_without_option = (y < 0 and x == 0.0)
-                what = (f"{name}+ is clamped at zero although its option is off" if clamped_without_option
-                        else f"{name}+ differs from clamp_next(reference model)")
-                rec.violation(f"{PROP}:numpy vs reference model: {what} [options on: {_short(sorted(opts))}]",
+                eid, name, i, x, y, what = bad
+                rec.violation(f"{PROP}:numpy vs sign of the reference model: {what} [options on: {_short(sorted(opts))}]",
                               {"desc": desc, "pars": pars, "vals": vals, "opts": opts, "element": eid, "var": name, "index": i,
-                               "observed": x, "expected": y})
+                               "observed": x, "unclamped_reference_value": y})
                 break
 
 
